@@ -57,6 +57,12 @@ def ctxKnownDirectives (s : SchemaD) (fx : Fixes) : CTX ⟨s, fx, [.knownDirecti
   J _ := True
   Inv _ := True
   bad _ _ := false
+  qskip _ _ := false
+  qskipE _ _ _ _ h := by cases h
+  qskip_fine _ _ h := by cases h
+  qskip_ctx _ _ h := by cases h
+  qskip_only _ _ h := by cases h
+  qskip_sub _ _ h := by cases h
   F := fKnownDir s
   G _ _ := 0
   restore n x _ := by cases n <;> simp [ancUp, ancDown]
@@ -75,14 +81,14 @@ def ctxKnownDirectives (s : SchemaD) (fx : Fixes) : CTX ⟨s, fx, [.knownDirecti
   enterI _ _ _ _ := trivial
   leaveI _ _ _ _ := trivial
   skipE _ _ _ _ h := by cases h
-  noskip n st _ _ _ := by
+  noskip n st _ _ _ _ := by
     rw [enter_single]
     cases n <;> simp [enterRule]
     rename_i dr
     split
     · rfl
     · split <;> rfl
-  enterE n st _ _ _ := by
+  enterE n st _ _ _ _ := by
     rw [enter_single]
     cases n with
     | directive dd =>
